@@ -258,3 +258,6 @@ acc_shape!(u7_mania_genstate_acc_no100, true, true, true, false, true);
 //@ bound: loop-free arm; accuracy any value in [0,1]
 //@ clause: mania generate_state with accuracy and all results but n50 given: C12 clauses (1)-(3),(5),(6)
 acc_shape!(u7_mania_genstate_acc_no50, true, true, true, true, false);
+
+// NOTE: the accuracy search arm (two or more results unknown: nested n320/n300/n200/n100 windows) was tried with
+// n_objects <= 2 and a symbolic competitor; CBMC ran out of memory after ~30 min (contracts/attempted/). Not registered.
